@@ -122,36 +122,32 @@ Theorem render_int_rt_refuted : exists z, (- Z.of_N two63 <= z < Z.of_N two63)%Z
 Proof. exists 0%Z. split; [unfold two63; lia|]. vm_compute. discriminate. Qed.
 
 (* ------------------------------------------------------------------ text *)
-Definition no_quote_backslash (s : list N) : bool := forallb (fun c => negb (c =? 34) && negb (c =? 92)) s.
-
-Lemma text_body_plain : forall s f, no_quote_backslash s = true -> (length s < f)%nat ->
-  text_body f (s ++ [34]) = Some s.
+Lemma text_body_escaped : forall s f, (length (escape_text s) < f)%nat ->
+  text_body f (escape_text s ++ [34]) = Some s.
 Proof.
-  induction s as [|c s IH]; intros f H Hf.
+  induction s as [|c s IH]; intros f Hf.
   - destruct f; [cbn in Hf; lia|]. reflexivity.
-  - destruct f; [cbn in Hf; lia|]. cbn [no_quote_backslash forallb] in H. apply andb_prop in H as [H1 H2].
-    cbn [app text_body].
-    destruct (c =? 34) eqn:E1; [lia|].
-    destruct (c =? 92) eqn:E2; [lia|].
-    rewrite (IH f H2); [reflexivity|]. cbn [length] in Hf. lia.
+  - unfold escape_text in *. cbn [flat_map] in *. fold (escape_text s) in *.
+    destruct (c =? 34) eqn:E1.
+    + apply N.eqb_eq in E1. subst c. cbn [orb app] in *. cbn [length] in Hf.
+      destruct f; [lia|]. cbn [text_body]. change (92 =? 34) with false. change (92 =? 92) with true. cbv iota.
+      change (escape (34 :: escape_text s ++ [34])) with (Some ([34], escape_text s ++ [34])). cbv iota beta.
+      rewrite (IH f) by lia. reflexivity.
+    + destruct (c =? 92) eqn:E2.
+      * apply N.eqb_eq in E2. subst c. cbn [orb app] in *. cbn [length] in Hf.
+        destruct f; [lia|]. cbn [text_body]. change (92 =? 34) with false. change (92 =? 92) with true. cbv iota.
+        change (escape (92 :: escape_text s ++ [34])) with (Some ([92], escape_text s ++ [34])). cbv iota beta.
+        rewrite (IH f) by lia. reflexivity.
+      * cbn [orb app] in *. cbn [length] in Hf. destruct f; [lia|]. cbn [text_body]. rewrite E1, E2.
+        rewrite (IH f) by lia. reflexivity.
 Qed.
 
-(* FULL STATEMENT (false of the code): forall s, utf8_valid s -> parse_lit (render_lit (LText s)) = Some (LText s).
-   Type2::TextValue::fmt writes the stored (already unescaped) value between quotes without re-escaping it. *)
-Theorem render_text_rt_partial : forall s, no_quote_backslash s = true ->
-  parse_lit (render_lit (LText s)) = Some (LText s).
+(* every stored text value (any byte string) is read back unchanged: quotes and backslashes are re-escaped *)
+Theorem render_text_rt : forall s, parse_lit (render_lit (LText s)) = Some (LText s).
 Proof.
-  intros s H. cbn [render_lit render_text app]. cbn [parse_lit parse_text].
-  rewrite (text_body_plain s _ H); [reflexivity|]. rewrite app_length. cbn. lia.
+  intros s. cbn [render_lit render_text app]. cbn [parse_lit parse_text].
+  rewrite (text_body_escaped s); [reflexivity|]. rewrite app_length. cbn. lia.
 Qed.
-
-Theorem render_text_rt_refuted : exists s, parse_lit (render_lit (LText s)) <> Some (LText s).
-Proof. exists [113; 34; 120]. vm_compute. discriminate. Qed.
-
-(* a value with a backslash re-parses to a DIFFERENT text (not merely fails): "a\b" (3 bytes) prints "a\b", read as a, BS *)
-Theorem render_text_rt_refuted_backslash :
-  parse_lit (render_lit (LText [97; 92; 98])) = Some (LText [97; 8]).
-Proof. vm_compute. reflexivity. Qed.
 
 (* ------------------------------------------------------------------ '...' byte strings *)
 Definition no_squote (s : list N) : bool := forallb (fun c => negb (c =? 39)) s.
@@ -347,41 +343,98 @@ Proof.
     + exists 48. eexists. split; reflexivity.
 Qed.
 
-(* FULL STATEMENT (false of the code): for every float value x, parse_lit (render_lit (LFloat x)) = Some (LFloat x).
-   f64's Display prints an integral value without fraction or exponent, so 1.0, 1.5e3, 0x1p4 re-parse as unsigned
-   integers, -0.0 as the integer -0, and infinities print as the identifier `inf`. The round trip holds exactly for
-   the finite values that have a fractional part (decimal exponent of the shortest digits negative). *)
-Theorem render_float_rt_partial : forall neg m e, (e < 0)%Z -> m mod 10 <> 0 ->
-  parse_lit (render_lit (LFloat (FFin neg m e))) = Some (LFloat (FFin neg m e)).
+Lemma dec_val_zeros : forall n a, dec_val a (zeros n) = a * 10 ^ n.
 Proof.
-  intros neg m e He Hm. destruct e as [|p|p]; try lia. cbn [render_lit render_float].
-  destruct (parse_float_body_render neg m p Hm) as [P [M [c [r [E Hc]]]]]. cbv zeta in P, M, E.
-  set (body := if N.pos p <? lenN (render_uint m)
-               then firstn (N.to_nat (lenN (render_uint m) - N.pos p)) (render_uint m) ++ [46]
-                    ++ skipn (N.to_nat (lenN (render_uint m) - N.pos p)) (render_uint m)
-               else [48; 46] ++ zeros (N.pos p - lenN (render_uint m)) ++ render_uint m) in *.
-  assert (G : (if N.pos p <? lenN (render_uint m)
-      then sign neg ++ firstn (N.to_nat (lenN (render_uint m) - N.pos p)) (render_uint m) ++ [46]
-           ++ skipn (N.to_nat (lenN (render_uint m) - N.pos p)) (render_uint m)
-      else sign neg ++ [48; 46] ++ zeros (N.pos p - lenN (render_uint m)) ++ render_uint m) = sign neg ++ body).
-  { unfold body. destruct (N.pos p <? lenN (render_uint m)); reflexivity. }
-  rewrite G. destruct neg; cbn [sign app].
-  - change (parse_lit (45 :: body)) with (parse_neg_number body). unfold parse_neg_number. rewrite M, P. reflexivity.
-  - rewrite E, (parse_lit_digit _ _ Hc), <- E. unfold parse_pos_number. rewrite M, P. reflexivity.
+  induction n as [|n IH] using N.peano_ind; intros a.
+  - cbn. lia.
+  - rewrite zeros_succ. cbn [dec_val]. rewrite IH, N.pow_succ_r'. lia.
 Qed.
 
-(* 1.0 -> "1" -> uint 1 ; 1.5e3 -> "1500" ; -0.0 -> "-0" -> int 0 ; inf -> "inf" (no literal) ; 16.0 (0x1p4) -> "16" *)
-Theorem render_float_rt_refuted :
-  parse_lit (render_lit (LFloat (FFin false 1 0))) = Some (LUint 1) /\
-  parse_lit (render_lit (LFloat (FFin false 15 2))) = Some (LUint 1500) /\
-  parse_lit (render_lit (LFloat (FFin false 16 0))) = Some (LUint 16) /\
-  parse_lit (render_lit (LFloat (FFin true 0 0))) = Some (LInt 0) /\
-  parse_lit (render_lit (LFloat (FInf false))) = None.
-Proof. vm_compute. repeat split. Qed.
+Lemma strip_zeros_pow : forall k f m e, m mod 10 <> 0 -> (k < f)%nat ->
+  strip_zeros f (m * 10 ^ N.of_nat k) e = (m, (e + Z.of_nat k)%Z).
+Proof.
+  induction k as [|k IH]; intros f m e Hm Hf.
+  - destruct f; [lia|]. change (10 ^ N.of_nat 0) with 1. rewrite N.mul_1_r, strip_zeros_canon by exact Hm.
+    f_equal. lia.
+  - destruct f; [lia|]. rewrite Nnat.Nat2N.inj_succ, N.pow_succ_r'.
+    assert (Hpos : 0 < m) by (destruct (N.eq_dec m 0) as [->|]; [exfalso; apply Hm; reflexivity|lia]).
+    assert (Hp : 0 < 10 ^ N.of_nat k) by (apply N.neq_0_lt_0, N.pow_nonzero; lia).
+    cbn [strip_zeros].
+    replace (m * (10 * 10 ^ N.of_nat k)) with (m * 10 ^ N.of_nat k * 10) by lia.
+    destruct (m * 10 ^ N.of_nat k * 10 =? 0) eqn:E1; [nia|].
+    rewrite N.mod_mul by lia. change (0 =? 0) with true. cbv iota.
+    rewrite N.div_mul by lia. rewrite IH by (try exact Hm; lia). f_equal. lia.
+Qed.
 
-(* the decision that separates the two classes, as a boolean classifier on the model value *)
-Definition float_prints_as_float (x : fl) : bool :=
-  match x with FFin _ m e => (e <? 0)%Z && negb (m mod 10 =? 0) | _ => false end.
+Definition fl_canon (m : N) (e : Z) : Prop := m mod 10 <> 0 \/ (m = 0 /\ e = 0%Z).
+
+Lemma parse_float_body_integral : forall neg m e, (0 <= e)%Z -> fl_canon m e ->
+  let body := render_uint m ++ zeros (Z.to_N e) ++ [46; 48] in
+  parse_float_body neg body = Some (FFin neg m e) /\ has_float_mark body = true /\
+  exists c r, body = c :: r /\ is_digit c = true.
+Proof.
+  intros neg m e He Hc body. pose proof (render_uint_digits m) as [A [B [C [D F]]]].
+  set (ds := render_uint m) in *. set (n := Z.to_N e) in *.
+  destruct (zeros_props n) as [Z1 [Z2 Z3]].
+  assert (Aip : forallb is_digit (ds ++ zeros n) = true) by (rewrite forallb_app, A, Z1; reflexivity).
+  assert (Hip : dec_syntax (ds ++ zeros n) = true).
+  { destruct Hc as [Hm|[Hm0 He0]].
+    - assert (Hpos : 0 < m) by (destruct (N.eq_dec m 0) as [->|]; [exfalso; apply Hm; reflexivity|lia]).
+      apply dec_syntax_nz; [exact Aip| |].
+      + destruct ds; [congruence|discriminate].
+      + destruct ds as [|c r]; [congruence|]. cbn [app hd]. exact (D Hpos).
+    - subst m. rewrite (F eq_refl). unfold n. rewrite He0. reflexivity. }
+  assert (Ebody : body = (ds ++ zeros n) ++ 46 :: [48]) by (unfold body; rewrite <- app_assoc; reflexivity).
+  split; [|split].
+  - rewrite Ebody. unfold parse_float_body.
+    rewrite (span_digits_app (ds ++ zeros n) (46 :: [48]) Aip eq_refl). rewrite Hip. cbn [negb].
+    change (span_digits [48]) with ([48], @nil N). cbv iota beta. change (lenN [48] =? 0) with false. cbv iota.
+    rewrite <- app_assoc, dec_val_app2, dec_val_app2, C, dec_val_zeros. cbn [dec_val].
+    destruct Hc as [Hm|[Hm0 He0]].
+    + replace (m * 10 ^ n * 10 + (48 - 48)) with (m * 10 ^ N.of_nat (S (N.to_nat n))).
+      2:{ rewrite Nnat.Nat2N.inj_succ, Nnat.N2Nat.id, N.pow_succ_r'. lia. }
+      rewrite strip_zeros_pow; [|exact Hm|].
+      * f_equal. f_equal. unfold n. change (lenN [48]) with 1. lia.
+      * rewrite !app_length. unfold lenN in Z2. cbn [length]. lia.
+    + subst m. replace (0 * 10 ^ n * 10 + (48 - 48)) with 0 by lia.
+      cbn [strip_zeros]. change (0 =? 0) with true. cbv iota. rewrite He0. reflexivity.
+  - rewrite Ebody. apply has_mark_dot.
+  - destruct ds as [|c r] eqn:Eds; [congruence|]. exists c. eexists. split; [unfold body; reflexivity|].
+    cbn [forallb] in A. apply andb_prop in A as [A1 _]. exact A1.
+Qed.
+
+(* every finite float value (decimal normal form) is read back as the same float: integral values keep a ".0".
+   Not covered: infinities and NaN have no CDDL spelling; since 4743917 the parser rejects literals that overflow,
+   so an accepted document cannot contain them. *)
+Theorem render_float_rt : forall neg m e, fl_canon m e ->
+  parse_lit (render_lit (LFloat (FFin neg m e))) = Some (LFloat (FFin neg m e)).
+Proof.
+  intros neg m e Hc. destruct (Z_lt_ge_dec e 0) as [He|He].
+  - destruct Hc as [Hm|[_ He0]]; [|lia].
+    destruct e as [|p|p]; try lia. cbn [render_lit render_float].
+    destruct (parse_float_body_render neg m p Hm) as [P [M [c [r [E Hd]]]]]. cbv zeta in P, M, E.
+    set (body := if N.pos p <? lenN (render_uint m)
+                 then firstn (N.to_nat (lenN (render_uint m) - N.pos p)) (render_uint m) ++ [46]
+                      ++ skipn (N.to_nat (lenN (render_uint m) - N.pos p)) (render_uint m)
+                 else [48; 46] ++ zeros (N.pos p - lenN (render_uint m)) ++ render_uint m) in *.
+    assert (G : (if N.pos p <? lenN (render_uint m)
+        then sign neg ++ firstn (N.to_nat (lenN (render_uint m) - N.pos p)) (render_uint m) ++ [46]
+             ++ skipn (N.to_nat (lenN (render_uint m) - N.pos p)) (render_uint m)
+        else sign neg ++ [48; 46] ++ zeros (N.pos p - lenN (render_uint m)) ++ render_uint m) = sign neg ++ body).
+    { unfold body. destruct (N.pos p <? lenN (render_uint m)); reflexivity. }
+    rewrite G. destruct neg; cbn [sign app].
+    + change (parse_lit (45 :: body)) with (parse_neg_number body). unfold parse_neg_number. rewrite M, P. reflexivity.
+    + rewrite E, (parse_lit_digit _ _ Hd), <- E. unfold parse_pos_number. rewrite M, P. reflexivity.
+  - assert (He' : (0 <= e)%Z) by lia.
+    destruct (parse_float_body_integral neg m e He' Hc) as [P [M [c [r [E Hd]]]]]. cbv zeta in P, M, E.
+    assert (G : render_lit (LFloat (FFin neg m e)) = sign neg ++ render_uint m ++ zeros (Z.to_N e) ++ [46; 48]).
+    { cbn [render_lit render_float]. destruct e as [|p|p]; try lia; reflexivity. }
+    rewrite G. destruct neg; cbn [sign app].
+    + change (parse_lit (45 :: render_uint m ++ zeros (Z.to_N e) ++ [46; 48]))
+        with (parse_neg_number (render_uint m ++ zeros (Z.to_N e) ++ [46; 48])).
+      unfold parse_neg_number. rewrite M, P. reflexivity.
+    + rewrite E, (parse_lit_digit _ _ Hd), <- E. unfold parse_pos_number. rewrite M, P. reflexivity.
+Qed.
 
 (* ------------------------------------------------------------------ occurrence indicators *)
 Lemma split_star_app : forall a b, forallb is_digit a = true -> split_star (a ++ 42 :: b) = Some (a, b).
@@ -477,6 +530,11 @@ Proof.
   - reflexivity.
 Qed.
 
+(* `#6` and `#6.n` without content type print as their head only (no empty parentheses) *)
+Theorem render_tagged_no_type_rt : forall c, (match c with Some n => n < two64 | None => True end) ->
+  parse_tag_head (render_tagged c None) = Some (TTagged c).
+Proof. intros c H. unfold render_tagged. rewrite app_nil_r. apply (render_tag_head_rt (TTagged c)). exact H. Qed.
+
 Theorem render_tag_head_major6_refuted : parse_tag_head (render_tag_head (TMajor 6 None)) = Some (TTagged None).
 Proof. vm_compute. reflexivity. Qed.
 
@@ -492,17 +550,22 @@ Proof. intros c. destruct c; vm_compute; reflexivity. Qed.
 
 (* at the grammar level (cddl.pest's ordered choice control_name) the printed name followed by a blank is read back as
    the same operator for every operator except .cborseq, which the grammar can never produce ("cbor" is tried first) *)
-Theorem render_ctl_peg_partial : forall c, c <> CCborseq -> peg_ctl (render_ctl c ++ [32]) = Some (c, [32]).
-Proof. intros c H. destruct c; try (vm_compute; reflexivity). congruence. Qed.
+Theorem render_ctl_peg_partial : forall c rest, c <> CCborseq -> peg_ctl (render_ctl c ++ 32 :: rest) = Some (c, 32 :: rest).
+Proof. intros c rest H. destruct c; try reflexivity. congruence. Qed.
 
 Theorem render_ctl_peg_refuted : peg_ctl (render_ctl CCborseq ++ [32]) = Some (CCbor, [115; 101; 113; 32]).
 Proof. vm_compute. reflexivity. Qed.
 
-(* Type1::fmt puts no blank between a control operator and its controller unless the left operand is a type name:
-   `"x" .abnf bstr` prints `"x".abnfbstr`, which the grammar reads as `.abnfb` applied to `str` *)
-Theorem render_ctl_glue_refuted :
-  peg_ctl (render_ctl CAbnf ++ [98; 115; 116; 114]) = Some (CAbnfb, [115; 116; 114]).
-Proof. vm_compute. reflexivity. Qed.
+(* Type1::fmt writes a blank after every control operator, so whatever the controller starts with, the operator is read
+   back as itself (`"x" .abnf bstr` prints `"x".abnf bstr`) *)
+Theorem render_type1_ctl : forall name_like left c right, c <> CCborseq ->
+  exists pre, render_type1 name_like left (render_ctl c) true right = pre ++ render_ctl c ++ 32 :: right /\
+              peg_ctl (render_ctl c ++ 32 :: right) = Some (c, 32 :: right).
+Proof.
+  intros nl left c right H. exists (left ++ if nl then [32] else []). split.
+  - unfold render_type1. rewrite orb_true_r, <- !app_assoc. reflexivity.
+  - apply render_ctl_peg_partial. exact H.
+Qed.
 
 (* ------------------------------------------------------------------ identifiers, sockets, markers *)
 Definition ident_ok (id : list N) : Prop := match id with [] => False | c :: _ => c <> 36 end.
@@ -520,12 +583,11 @@ Proof.
   - reflexivity.
 Qed.
 
-(* FULL STATEMENT (false of the code): forall m s id, ident_ok id -> parse_marked (render_marked m s id) = Some (m, s, id).
-   Type2::Unwrap::fmt prints the identifier without the '~'. *)
-Theorem render_marked_rt_partial : forall m s id, ident_ok id -> hd 0 id <> 126 -> hd 0 id <> 38 ->
-  m <> MUnwrap -> parse_marked (render_marked m s id) = Some (m, s, id).
+(* plain names, ~name and &name are read back with their marker and socket *)
+Theorem render_marked_rt : forall m s id, ident_ok id -> hd 0 id <> 126 -> hd 0 id <> 38 ->
+  parse_marked (render_marked m s id) = Some (m, s, id).
 Proof.
-  intros m s id H H1 H2 Hm. destruct m; [|congruence|].
+  intros m s id H H1 H2. destruct m.
   - cbn [render_marked]. pose proof (render_ident_rt s id H) as R.
     destruct id as [|c r]; [contradiction|]. cbn [hd] in H1, H2.
     destruct s; cbn [render_ident render_socket app] in *.
@@ -533,14 +595,15 @@ Proof.
       rewrite R. reflexivity.
     + unfold parse_marked. change (36 =? 126) with false. change (36 =? 38) with false. cbv iota. rewrite R. reflexivity.
     + unfold parse_marked. change (36 =? 126) with false. change (36 =? 38) with false. cbv iota. rewrite R. reflexivity.
-  - cbn [render_marked render_gname].
+  - cbn [render_marked].
+    change (parse_marked (render_unwrap s id))
+      with (option_map (fun p => (MUnwrap, fst p, snd p)) (parse_ident (render_ident s id))).
+    rewrite (render_ident_rt s id H). reflexivity.
+  - cbn [render_marked].
     change (parse_marked (render_gname s id))
       with (option_map (fun p => (MGname, fst p, snd p)) (parse_ident (render_ident s id))).
     rewrite (render_ident_rt s id H). reflexivity.
 Qed.
-
-Theorem render_marked_rt_refuted : parse_marked (render_marked MUnwrap SNone [98]) = Some (MName, SNone, [98]).
-Proof. vm_compute. reflexivity. Qed.
 
 Theorem render_cut_rt : forall b, parse_cut (render_cut b) = Some b.
 Proof. intros [|]; vm_compute; reflexivity. Qed.
